@@ -22,7 +22,7 @@ ID = "C14"
 LEVEL = "exploration"
 RULE = (
     "Hypothesis draws a multiset of devices: 0-3 servos (each in the prologue or at the top of the main-loop body), 0-2 parallel LCDs, "
-    "0-2 I2C LCDs (prologue), other devices, helpers, lists, plus decoys that merely *mention* library names (identifiers like Servo_count, "
+    "0-2 I2C LCDs (prologue; bus addresses incl. 0 and constant expressions), other devices, helpers, lists, plus decoys that merely *mention* library names (identifiers like Servo_count, "
     "strings like '#include <Servo.h>', comments). Oracle: equality of the five independently derived library sets (script, requested list, lib_deps of the written platformio.ini, #includes, instantiated classes), Wire.h accompanies the "
     "I2C header, nothing listed twice; every 3rd sketch is linked against the mock headers. Non-trivial = >=1 library-backed device or a decoy. "
     "distinct = distinct script."
@@ -56,7 +56,7 @@ def script(draw):
             pro.append(f"lp{i}.write(0, 0, 'hi')")
         expect.add("LiquidCrystal")
     for i in range(draw(st.integers(0, 2))):
-        pro.append(f"li{i} = LCD(i2c_addr={draw(st.sampled_from(['0x27', '39', '0x3F']))}" + draw(st.sampled_from([")", ", cols=20, rows=4)"])))
+        pro.append(f"li{i} = LCD(i2c_addr={draw(st.sampled_from(['0x27', '39', '0x3F', '0', '0x00', '(39 - 39)', '1', '0x7F']))}" + draw(st.sampled_from([")", ", cols=20, rows=4)"])))
         if draw(st.booleans()):
             pro.append(f"li{i}.line(0, 'x')")
         expect.add("LiquidCrystal_I2C")
